@@ -3,6 +3,7 @@ CONSTANTS
   MaxB = 4
   WithInit = TRUE
   CanonInit = FALSE
+  SelfEdgeChecked = TRUE
   EmitCases = FALSE
 INIT Init
 NEXT Next
